@@ -385,9 +385,15 @@ impl ThreadPool {
         F: FnOnce() + Send + 'static,
     {
         let job = Box::new(f);
+        // a job counts as busy from the moment it is queued, so that a burst of
+        // submissions is not judged by a counter the workers have not caught up with
+        let outstanding = {
+            let mut num_busy = self.num_busy.write().unwrap();
+            *num_busy += 1;
+            *num_busy
+        };
         self.sender.send(Message::NewJob(job)).unwrap();
-        if ((self.num_busy() + 1) >= self.workers.len()) && (self.workers.len() <= self.max_workers)
-        {
+        if (outstanding > self.workers.len()) && (self.workers.len() < self.max_workers) {
             self.workers.push(Worker::new(
                 Arc::clone(&self.receiver),
                 Arc::clone(&self.num_busy),
@@ -426,10 +432,6 @@ impl Worker {
 
             match message {
                 Message::NewJob(job) => {
-                    {
-                        let mut num_busy = num_busy.write().unwrap();
-                        *num_busy += 1;
-                    }
                     job.call_box();
                     {
                         let mut num_busy = num_busy.write().unwrap();
